@@ -59,6 +59,8 @@ func checkBareKeyKeywords(r *Run, g *Grammar) {
 	}
 	// string tables (package-level map or slice literals) consulted by the function, directly or one call deep
 	tables := map[types.Object]bool{}
+	consulting := []*ast.FuncDecl{fd}
+	var listedRaw []string
 	var collect func(n ast.Node, depth int)
 	collect = func(n ast.Node, depth int) {
 		ast.Inspect(n, func(x ast.Node) bool {
@@ -71,6 +73,7 @@ func checkBareKeyKeywords(r *Run, g *Grammar) {
 				if depth < 1 {
 					if fn := calleeOf(info, t); fn != nil && fn.Pkg() == cp.Types {
 						if d := decls[fn.Name()]; d != nil && d.Body != nil {
+							consulting = append(consulting, d)
 							collect(d.Body, depth+1)
 						}
 					}
@@ -97,6 +100,7 @@ func checkBareKeyKeywords(r *Run, g *Grammar) {
 						if e, ok := x.(ast.Expr); ok {
 							if tv, has := info.Types[e]; has && tv.Value != nil && tv.Value.Kind() == constant.String {
 								listed[strings.ToLower(constant.StringVal(tv.Value))] = true
+								listedRaw = append(listedRaw, constant.StringVal(tv.Value))
 							}
 						}
 						return true
@@ -111,10 +115,220 @@ func checkBareKeyKeywords(r *Run, g *Grammar) {
 			missing = append(missing, k)
 		}
 	}
+	checkKeywordLookupFolded(r, cp, fd, tables, consulting, listedRaw)
 	if len(missing) == 0 {
 		r.Pass("C07-R6-bare-key-keywords", "CanEmitBarePropertyKeyName", fd.Pos(), "the %d keywords that are neither reserved words nor symbolic names are all in the table the function consults", len(outside))
 	} else {
 		r.Fail("C07-R6-bare-key-keywords", "CanEmitBarePropertyKeyName", fd.Pos(), "%d keywords of the grammar are neither an alternative of oC_ReservedWord nor of oC_SymbolicName, and CanEmitBarePropertyKeyName lets a key spelled like them stand bare: n.`%s` is emitted as n.%s, which the lexer reads as the keyword and the parser rejects (missing: %s)", len(missing), missing[0], missing[0], strings.Join(missing, ", "))
+	}
+}
+
+// checkKeywordLookupFolded (R6, second half): the lexer rules of the keywords spell every letter in both cases, so a name
+// is read as the keyword whatever its case; the table holds one spelling of each. Every place where the deciding
+// function (or a helper it calls) looks a name up in the table, or compares it with an entry, must therefore use the
+// name folded to the case of the table: `tbl[strings.ToLower(name)]`, `slices.Contains(tbl, folded)`,
+// `tbl[i] == folded`, or strings.EqualFold. A raw name at such a place lets `Index` or `FROM` stand bare.
+func checkKeywordLookupFolded(r *Run, cp *packages.Package, entry *ast.FuncDecl, tables map[types.Object]bool, consulting []*ast.FuncDecl, entries []string) {
+	const rule = "C07-R6-keyword-lookup-folded"
+	info := cp.TypesInfo
+	wantFold := ""
+	allLower, allUpper := true, true
+	for _, e := range entries {
+		if e != strings.ToLower(e) {
+			allLower = false
+		}
+		if e != strings.ToUpper(e) {
+			allUpper = false
+		}
+	}
+	switch {
+	case len(entries) == 0:
+		return
+	case allLower:
+		wantFold = "ToLower"
+	case allUpper:
+		wantFold = "ToUpper"
+	default:
+		r.Undecide("C07-R6: the keyword table mixes cases; the folding it expects is not identified")
+		return
+	}
+	isTable := func(e ast.Expr) bool {
+		id, ok := ast.Unparen(e).(*ast.Ident)
+		return ok && tables[info.Uses[id]]
+	}
+	seen := map[*ast.FuncDecl]bool{}
+	sites := 0
+	for _, fd := range consulting {
+		if seen[fd] || fd.Body == nil {
+			continue
+		}
+		seen[fd] = true
+		// identifiers that stand for an entry of the table: range variables over it
+		entryVar := map[types.Object]bool{}
+		ast.Inspect(fd.Body, func(n ast.Node) bool {
+			if rs, ok := n.(*ast.RangeStmt); ok && isTable(rs.X) {
+				_, isMap := info.TypeOf(rs.X).Underlying().(*types.Map)
+				pick := rs.Value
+				if isMap {
+					pick = rs.Key
+				}
+				if id, ok := pick.(*ast.Ident); ok && info.Defs[id] != nil {
+					entryVar[info.Defs[id]] = true
+				}
+			}
+			return true
+		})
+		isEntry := func(e ast.Expr) bool {
+			switch x := ast.Unparen(e).(type) {
+			case *ast.Ident:
+				return entryVar[info.Uses[x]]
+			case *ast.IndexExpr:
+				if isTable(x.X) {
+					_, isMap := info.TypeOf(x.X).Underlying().(*types.Map)
+					return !isMap
+				}
+			}
+			return false
+		}
+		var folded func(e ast.Expr, in *ast.FuncDecl, depth int) bool
+		folded = func(e ast.Expr, in *ast.FuncDecl, depth int) bool {
+			e = ast.Unparen(e)
+			if call, ok := e.(*ast.CallExpr); ok {
+				if fn := calleeOf(info, call); fn != nil && fn.Pkg() != nil && fn.Pkg().Path() == "strings" && fn.Name() == wantFold {
+					return true
+				}
+				// a conversion keeps the spelling
+				if tv, has := info.Types[call.Fun]; has && tv.IsType() && len(call.Args) == 1 {
+					return folded(call.Args[0], in, depth)
+				}
+				return false
+			}
+			id, ok := e.(*ast.Ident)
+			if !ok {
+				return false
+			}
+			if def := resolveLocalCopy(info, in.Body, id); def != ast.Expr(id) {
+				return folded(def, in, depth)
+			}
+			// a parameter of a helper: folded when every caller among the consulting functions passes a folded value
+			v, _ := info.Uses[id].(*types.Var)
+			if v == nil || depth > 2 || in == entry {
+				return false
+			}
+			idx := -1
+			n := 0
+			if in.Type.Params != nil {
+				for _, f := range in.Type.Params.List {
+					for _, nm := range f.Names {
+						if info.Defs[nm] == v {
+							idx = n
+						}
+						n++
+					}
+				}
+			}
+			if idx < 0 {
+				return false
+			}
+			callers := 0
+			ok = true
+			for _, c := range consulting {
+				if c.Body == nil {
+					continue
+				}
+				ast.Inspect(c.Body, func(x ast.Node) bool {
+					call, isCall := x.(*ast.CallExpr)
+					if !isCall || idx >= len(call.Args) {
+						return true
+					}
+					if fn := calleeOf(info, call); fn != nil && fn == info.Defs[in.Name] {
+						callers++
+						if !folded(call.Args[idx], c, depth+1) {
+							ok = false
+						}
+					}
+					return true
+				})
+			}
+			return ok && callers > 0
+		}
+		judge := func(pos token.Pos, key ast.Expr, how string) {
+			sites++
+			construct := funcDeclName(fd) + ":" + how
+			if folded(key, fd, 0) {
+				r.Pass(rule, construct, pos, "the name is looked up folded with strings.%s, the case of the table", wantFold)
+			} else {
+				r.Fail(rule, construct, pos, "%s looks the name up in the keyword table as %s, which is not folded with strings.%s: the lexer reads a keyword in any case (every letter of its rule has both cases) but the table holds one spelling, so a key spelled `Index` or `FROM` is emitted bare and the emitted text does not parse", funcDeclName(fd), types.ExprString(key), wantFold)
+			}
+		}
+		ast.Inspect(fd.Body, func(n ast.Node) bool {
+			switch x := n.(type) {
+			case *ast.IndexExpr:
+				if isTable(x.X) {
+					if _, isMap := info.TypeOf(x.X).Underlying().(*types.Map); isMap {
+						judge(x.Pos(), x.Index, "map-lookup")
+					}
+				}
+			case *ast.CallExpr:
+				fn := calleeOf(info, x)
+				if fn == nil || fn.Pkg() == nil {
+					return true
+				}
+				hasTable := false
+				for _, a := range x.Args {
+					if isTable(a) {
+						hasTable = true
+					}
+				}
+				if !hasTable {
+					return true
+				}
+				switch fn.Pkg().Path() {
+				case "slices", "sort", "maps":
+					for _, a := range x.Args {
+						if isTable(a) {
+							continue
+						}
+						if b, ok := info.TypeOf(a).Underlying().(*types.Basic); ok && b.Info()&types.IsString != 0 {
+							judge(a.Pos(), a, fn.Name())
+						}
+					}
+				}
+			case *ast.BinaryExpr:
+				if x.Op != token.EQL && x.Op != token.NEQ {
+					return true
+				}
+				switch {
+				case isEntry(x.X) && !isEntry(x.Y):
+					judge(x.Pos(), x.Y, "compare")
+				case isEntry(x.Y) && !isEntry(x.X):
+					judge(x.Pos(), x.X, "compare")
+				}
+			}
+			return true
+		})
+	}
+	if sites == 0 {
+		// strings.EqualFold against the entries is the one other correct form
+		for _, fd := range consulting {
+			if fd.Body == nil {
+				continue
+			}
+			found := false
+			ast.Inspect(fd.Body, func(n ast.Node) bool {
+				if call, ok := n.(*ast.CallExpr); ok {
+					if fn := calleeOf(info, call); fn != nil && fn.Pkg() != nil && fn.Pkg().Path() == "strings" && fn.Name() == "EqualFold" {
+						found = true
+					}
+				}
+				return true
+			})
+			if found {
+				r.Pass(rule, funcDeclName(fd)+":EqualFold", fd.Pos(), "entries are compared with strings.EqualFold")
+				return
+			}
+		}
+		r.Undecide("C07-R6: no place found where CanEmitBarePropertyKeyName looks a name up in its keyword table")
 	}
 }
 
@@ -127,7 +341,7 @@ func checkKeyedStores(r *Run) {
 	for _, f := range fp.Syntax {
 		for _, d := range f.Decls {
 			fd, ok := d.(*ast.FuncDecl)
-			if !ok || fd.Body == nil || fd.Recv == nil || !(strings.HasPrefix(fd.Name.Name, "Enter") || strings.HasPrefix(fd.Name.Name, "Exit")) {
+			if !ok || fd.Body == nil {
 				continue
 			}
 			ast.Inspect(fd.Body, func(x ast.Node) bool {
@@ -144,6 +358,11 @@ func checkKeyedStores(r *Run) {
 					return true
 				}
 				if b, isBasic := mt.Key().Underlying().(*types.Basic); !isBasic || b.Kind() != types.String {
+					return true
+				}
+				// a map of the query model (cypher.MapLiteral): other string-keyed maps of the front end are its own
+				// book-keeping
+				if nt := namedOf(info.TypeOf(ix.X)); nt == nil || nt.Obj().Pkg() == nil || !strings.HasSuffix(nt.Obj().Pkg().Path(), "cypher/models/cypher") {
 					return true
 				}
 				n++
@@ -175,8 +394,19 @@ func checkKeyedStores(r *Run) {
 					}
 					return true
 				})
+				otherKey := ""
+				if !looked {
+					ast.Inspect(fd.Body, func(y ast.Node) bool {
+						if ix2, ok := y.(*ast.IndexExpr); ok && ix2 != ix && ix2.Pos() < as.Pos() && exprString(r.Fset, ix2.X) == exprString(r.Fset, ix.X) && exprString(r.Fset, ix2.Index) != exprString(r.Fset, ix.Index) {
+							otherKey = exprString(r.Fset, ix2.Index)
+						}
+						return true
+					})
+				}
 				if looked {
 					r.Pass("C07-R7-keyed-store", construct, as.Pos(), "a repeated key is reported before the pair is stored")
+				} else if otherKey != "" {
+					r.Fail("C07-R7-keyed-store", construct, as.Pos(), "%s stores a parsed pair under %s but looks for a repeat under %s: when the two differ (a key written in backticks) a repeated key is not noticed, the literal is accepted and modelled with one value, the other is dropped without an error", funcDisplayName(fd), exprString(r.Fset, ix.Index), otherKey)
 				} else {
 					r.Fail("C07-R7-keyed-store", construct, as.Pos(), "%s stores a parsed pair into a Go map without looking the key up first: a literal that repeats a key ({a: 1, a: 2}) is accepted and modelled with one value, the other is dropped without an error", funcDisplayName(fd))
 				}
